@@ -89,7 +89,7 @@ class AstGen:
         op = r.choice(["any", "any", "all"])
         if op == "any" and r.random() < 0.25:
             return ast.CollectionLambda(owner, ast.Any(), None)
-        v = ast.Identifier(r.choice(["t", "x", "k1", "v"]))
+        v = ast.Identifier(r.choice(["t", "x", "k1", "v"]), r.choice([(), (), (), ("row",), ("a", "b")]))     # the parser admits a dotted range variable
         body = self.gen(d - 1)
         if r.random() < 0.7:
             body = ast.Compare(r.choice(CMP)(), ast.Attribute(v, r.choice(self.names)), body)
